@@ -22,7 +22,8 @@ RULE = ("Integer while-programs over a b c i n s (skip, assignment, sequence, co
         "-6..6 per case (4 corner states + a sample that is a pure function of the case). Generators: random loop-free "
         "programs; loop templates with correct inductive invariants (counting, accumulating, countdown, multiplication, "
         "conditional body, nested loops) under variable renaming and one drawn mutation (post / invariant / guard / "
-        "body / pre); random guarded loops with random invariants; single conditions. Oracles: (a) loop-free: "
+        "body / pre); random guarded loops with random invariants; loops whose invariant holds at entry but is not "
+        "inductive; single conditions. Oracles: (a) loop-free: "
         "compute_wp(c,Q) evaluated in s <=> Q evaluated in run(c,s), reference interpreter; (b) every run from a "
         "pre-state that terminates (fuel 200) must end in a post-state unless some generated VC (its HOL form, own "
         "evaluator) is false on a sampled or visited state; a run that violates the postcondition while all VCs hold there "
@@ -49,10 +50,12 @@ ASSUMPTIONS = [
     "arrays, fields, forall, and While without an invariant are outside the property's quantifier and are not generated",
     "how parser.py / parser2.py read unbracketed user text (a - b - c as a - (b - c), a * b + c as a * (b + c)) is "
     "recorded as notes only; the round trip shown-string -> cond_parser is what is reported",
-    "imp.eval_Sem is only called when the reference interpreter terminates within its fuel",
+    "imp.eval_Sem is only called when the reference interpreter terminates within its fuel (14 iterations, values "
+    "<= 5000); runs whose values leave -10^9..10^9 are treated like runs out of fuel",
+    "time limits (60 s eval_Sem / vcg_norm, 120 s proof checking) count CPU time of the process; a hit is inconclusive",
 ]
-SHRINK_SECONDS = 60
-SHRINK_BUDGET = 400
+SHRINK_SECONDS = 20
+SHRINK_BUDGET = 300
 
 VARS = ['a', 'b', 'c', 'i', 'n', 's']
 VARCTX = {v: 'int' for v in VARS}
